@@ -557,6 +557,15 @@ Proof.
     pose proof (val_le_field num (sval x)). lia.
 Qed.
 
+Lemma entry_val_le num e : plen (wenc_val (snd e)) <= plen (wenc_field (erec num e)).
+Proof.
+  rewrite erec_enc. unfold evalb, ebody. rewrite !plen_app.
+  pose proof (plen_nonneg (tagb num 2)).
+  match goal with |- context [plen (varint_enc ?x)] => pose proof (plen_nonneg (varint_enc x)) end.
+  pose proof (plen_nonneg (tagb 1 (wt_of_wval (kval (fst e))))). pose proof (plen_nonneg (wenc_val (kval (fst e)))).
+  pose proof (plen_nonneg (tagb 2 (wt_of_wval (snd e)))). lia.
+Qed.
+
 Lemma elem_raw_le_map S kk t kvs num kx : wf_fld S (LMap kk) t (VMap kvs) = true -> In kx kvs ->
   plen (encode_elem (snd kx)) <= plen (wenc (wfld num (VMap kvs))).
 Proof.
@@ -565,9 +574,327 @@ Proof.
   destruct (wf_singular_facts _ _ _ Hv) as [_ [_ [_ Ee]]]. rewrite Ee.
   assert (Hin : In (erec num (entry_of kx)) (map (erec num) (map entry_of kvs))) by (apply in_map; apply in_map; exact Hx).
   pose proof (in_flat_map_plen wenc_field _ _ Hin) as H1. fold (wenc (map (erec num) (map entry_of kvs))) in H1.
-  rewrite erec_enc in H1. unfold evalb, ebody, entry_of in H1. cbn [fst snd] in H1. rewrite !plen_app in H1.
-  pose proof (plen_nonneg (tagb num 2)). pose proof (plen_nonneg (varint_enc (plen (ebody (entry_of kx))))).
-  pose proof (plen_nonneg (tagb 1 (wt_of_wval (kval (fst kx))))). pose proof (plen_nonneg (wenc_val (kval (fst kx)))).
-  pose proof (plen_nonneg (tagb 2 (wt_of_wval (sval (snd kx))))).
-  unfold ebody, entry_of in *. cbn [fst snd] in *. lia.
+  pose proof (entry_val_le num (entry_of kx)) as H2. unfold entry_of in H2 at 1. cbn [snd] in H2. lia.
+Qed.
+
+(* ------------------------------------------------------------------ the accumulated map is the Go map of the value *)
+Definition skey (kx : mkey * pval) : list Z := match fst kx with KStr s => s | KInt _ _ => [] end.
+Definition ikey (kx : mkey * pval) : Z := match fst kx with KInt _ i => to_s 64 i | KStr _ => 0 end.
+
+Lemma map_gval_str kvs : kvs <> [] -> Forall (fun kx => key_okb 9 (fst kx) = true) kvs ->
+  nodupb mkey_eqb (map fst kvs) = true -> GMapS (foldS kvs []) = to_gval (VMap kvs).
+Proof.
+  intros Hne Hk Hnd.
+  assert (Hs : Forall (fun kx => exists b, fst kx = KStr b) kvs).
+  { eapply Forall_impl; [|exact Hk]. intros [k x] H. cbn [fst] in *. destruct k as [k' v|b]; [|eexists; reflexivity].
+    cbn [key_okb] in H. apply andb_true_iff in H as [H _]. apply andb_true_iff in H as [_ H]. vm_compute in H. discriminate H. }
+  assert (E : foldS kvs [] = map (fun kx => (skey kx, to_gval (snd kx))) kvs).
+  { unfold foldS.
+    rewrite (fold_left_ext_Forall _ (fun a kx => upsert_b (skey kx) (to_gval (snd kx)) a) (fun kx => exists b, fst kx = KStr b) kvs);
+      [|intros a x [b Hb]; unfold skey; rewrite Hb; reflexivity|exact Hs].
+    rewrite (fold_upsert_b skey (fun kx => to_gval (snd kx)) kvs []); [reflexivity|].
+    cbn [map app].
+    assert (Em : map skey kvs = map (fun k => match k with KStr s => s | KInt _ _ => [] end) (map fst kvs)) by (rewrite map_map; reflexivity).
+    rewrite Em. apply (nodupb_map_inj mkey_eqb bytes_eqb); [|exact Hnd].
+    intros x y Hx Hy Hb. apply in_map_iff in Hx. destruct Hx as [kx [<- Hkx]]. apply in_map_iff in Hy. destruct Hy as [ky [<- Hky]].
+    rewrite Forall_forall in Hs. destruct (Hs _ Hkx) as [b1 E1]. destruct (Hs _ Hky) as [b2 E2]. rewrite E1, E2 in *. cbn [mkey_eqb]. exact Hb. }
+  rewrite E. destruct kvs as [|[k0 x0] kvs']; [contradiction|]. inversion Hs as [|? ? [b Hb] _]; subst. cbn [fst] in Hb. subst k0. reflexivity.
+Qed.
+
+Lemma map_gval_int kk kvs : (kk =? 9) = false -> kind_is_int kk = true -> kvs <> [] ->
+  Forall (fun kx => key_okb kk (fst kx) = true) kvs ->
+  nodupb mkey_eqb (map fst kvs) = true -> GMapI (foldI kvs []) = to_gval (VMap kvs).
+Proof.
+  intros H9 Hki Hne Hk Hnd.
+  assert (Hs : Forall (fun kx => exists i, fst kx = KInt kk i /\ scalar_okb kk i = true) kvs).
+  { eapply Forall_impl; [|exact Hk]. intros [k x] H. cbn [fst] in *. destruct k as [k' v|b]; cbn [key_okb] in H.
+    - apply andb_true_iff in H as [H Hok]. apply andb_true_iff in H as [Ek _]. apply Z.eqb_eq in Ek. subst k'. exists v. auto.
+    - rewrite H9 in H. discriminate H. }
+  assert (E : foldI kvs [] = map (fun kx => (ikey kx, to_gval (snd kx))) kvs).
+  { unfold foldI.
+    rewrite (fold_left_ext_Forall _ (fun a kx => upsert_z (ikey kx) (to_gval (snd kx)) a) (fun kx => exists i, fst kx = KInt kk i /\ scalar_okb kk i = true) kvs);
+      [|intros a x [i [Hi _]]; unfold ikey; rewrite Hi; reflexivity|exact Hs].
+    rewrite (fold_upsert_z ikey (fun kx => to_gval (snd kx)) kvs []); [reflexivity|].
+    cbn [map app].
+    assert (Em : map ikey kvs = map (fun k => match k with KInt _ i => to_s 64 i | KStr _ => 0 end) (map fst kvs)) by (rewrite map_map; reflexivity).
+    rewrite Em. apply (nodupb_map_inj mkey_eqb Z.eqb); [|exact Hnd].
+    intros x y Hx Hy Hb. apply in_map_iff in Hx. destruct Hx as [kx [<- Hkx]]. apply in_map_iff in Hy. destruct Hy as [ky [<- Hky]].
+    rewrite Forall_forall in Hs. destruct (Hs _ Hkx) as [i1 [E1 O1]]. destruct (Hs _ Hky) as [i2 [E2 O2]]. rewrite E1, E2 in *.
+    apply Z.eqb_eq in Hb. pose proof (to_s64_inj_okb kk i1 i2 Hki O1 O2 Hb) as Ei. subst i2. cbn [mkey_eqb]. rewrite !Z.eqb_refl. reflexivity. }
+  rewrite E. destruct kvs as [|[k0 x0] kvs']; [contradiction|]. inversion Hs as [|? ? [i [Hi _]] _]; subst. cbn [fst] in Hi. subst k0. reflexivity.
+Qed.
+
+Lemma sval_bytes_i S t x : wf_fld S LSingular t x = true -> type_numeric t = false -> exists b, sval x = WBytes b.
+Proof.
+  intros H Hn. destruct x as [k v|k b|fs| |]; cbn [wf_fld] in H; try discriminate.
+  - destruct t as [k'|]; [|discriminate]. apply andb_true_iff in H as [H _]. apply andb_true_iff in H as [Hk Hnum].
+    apply Z.eqb_eq in Hk. subst k'. cbn [type_numeric] in Hn. congruence.
+  - eexists; reflexivity.
+  - eexists; reflexivity.
+Qed.
+
+(* ------------------------------------------------------------------ the induction over the nesting of nodes *)
+Section Main.
+  Variable S : schema.
+  Hypothesis HS : schema_okb S = true.
+  Hypothesis HP : schema_packed_okb S = true.
+
+  (* LIST nodes: Interface() decides packed-ness by the element type (type_numeric), so the declared label must agree;
+     MAP nodes: the key kind is string or one ReadInt reads; both are reached through a field number *)
+  Definition label_ok (lbl : flabel) (t : ftype) (num : Z) : Prop :=
+    match lbl with
+    | LSingular => True
+    | LRepeated p => p = type_numeric t /\ 1 <= num <= MAX_FIELD_NUMBER
+    | LMap kk => (kk =? 9) || kind_is_int kk = true /\ 1 <= num <= MAX_FIELD_NUMBER
+    end.
+
+  Definition good (rec : anode -> ires) (n : nat) : Prop :=
+    forall lbl t num v, (height v <= n)%nat -> wf_fld S lbl t v = true -> label_ok lbl t num ->
+      plen (node_raw lbl num v) < 9223372036854775808 -> rec (vnode lbl t num v) = IOk (to_gval v).
+
+  (* the field loop of a message node, from the first field (root: pre = []; nested: pre = the length prefix) *)
+  Lemma iface_msg_loop rec n name md fs pre :
+    good rec n -> find_msg S name = Some md -> wf_fld S LSingular (TMsg name) (VMsg fs) = true ->
+    (height (VMsg fs) <= Datatypes.S n)%nat -> plen (pre ++ encode_msg fs) < 9223372036854775808 ->
+    if_msg all_fixes rec (Datatypes.S (length (pre ++ encode_msg fs))) md (pre ++ encode_msg fs) (plen pre) [] = IOk (to_gval (VMsg fs)).
+  Proof.
+    intros Hg Hfm Hwf Hh Hlen. destruct (wf_msg_facts _ _ _ Hwf) as [md' [Hfm' [Hnd [_ Hfs]]]].
+    rewrite Hfm in Hfm'. inversion Hfm'; subst md'. clear Hfm'.
+    assert (Hfu : (length fs <= length (pre ++ encode_msg fs))%nat) by (rewrite app_length; pose proof (i_encode_msg_len _ _ _ Hfs); lia).
+    destruct (i_fuel_split _ _ Hfu) as [f Ef]. rewrite Ef.
+    rewrite (if_msg_fields rec S md fs pre f [] Hfs Hnd Hlen).
+    - rewrite (fold_upsert_z fst (fun nv => to_gval (snd nv)) fs []) by exact Hnd. reflexivity.
+    - apply Forall_forall. intros [m x] Hin fd Hfd. cbn [fst snd] in *.
+      unfold fields_wf in Hfs. rewrite Forall_forall in Hfs. destruct (Hfs _ Hin) as [fd' [Hfd' [Hm Hv]]]. cbn [fst snd] in *.
+      rewrite Hfd in Hfd'. inversion Hfd'; subst fd'. clear Hfd'.
+      apply Hg.
+      + cbn [height] in Hh. pose proof (fold_max_le (fun nv => height (snd nv)) fs (m, x) Hin). cbn [snd] in *. lia.
+      + exact Hv.
+      + pose proof (schema_md _ _ _ HS Hfm) as Hmd. unfold mdesc_okb in Hmd. apply andb_true_iff in Hmd as [_ Hfo].
+        assert (Hfin : In fd (md_fields md)) by (unfold find_field in Hfd; apply find_some in Hfd; tauto).
+        assert (Hmin : In md S) by (unfold find_msg in Hfm; apply find_some in Hfm; tauto).
+        pose proof HP as HP'. unfold schema_packed_okb in HP'. rewrite forallb_forall in HP'. pose proof (HP' _ Hmin) as Hpk.
+        rewrite forallb_forall in Hpk, Hfo.
+        specialize (Hpk _ Hfin). specialize (Hfo _ Hfin). unfold field_packed_okb in Hpk. unfold field_okb in Hfo.
+        unfold label_ok. destruct (fd_label fd); [exact I|split; [apply eqb_prop; exact Hpk|exact Hm]|split; [exact Hfo|exact Hm]].
+      + pose proof (node_raw_le S _ _ m x Hv). pose proof (field_raw_le fs m x Hin). rewrite plen_app in Hlen. pose proof (plen_nonneg pre). lia.
+  Qed.
+
+  Lemma node_step rec n : good rec n -> good (interface_node all_fixes S rec) (Datatypes.S n).
+  Proof.
+    intros Hg lbl t num v Hh Hwf Hlo Hlen. destruct lbl as [|p|kk].
+    - (* singular *)
+      destruct (wf_singular_facts _ _ _ Hwf) as [Hw [Hwt [[Htt1 Htt2] Ee]]].
+      destruct v as [k x|k b|fs|?|?]; try (cbn [wf_fld] in Hwf; discriminate).
+      + (* scalar *)
+        assert (Hnm : kind_of_type t <> K_MESSAGE).
+        { destruct t as [k'|]; [|cbn [wf_fld] in Hwf; discriminate]. cbn [kind_of_type]. intros ->. cbn [wf_fld] in Hwf.
+          apply andb_true_iff in Hwf as [Hwf _]. apply andb_true_iff in Hwf as [Ek Hnum]. apply Z.eqb_eq in Ek. subst k. vm_compute in Hnum. discriminate Hnum. }
+        unfold interface_node, vnode. cbn [an_t an_raw node_type node_raw].
+        destruct (Z.eqb_spec (kind_of_type t) K_MESSAGE); [contradiction|].
+        destruct (Z.eqb_spec (kind_of_type t) T_LIST); [contradiction|].
+        destruct (Z.eqb_spec (kind_of_type t) T_MAP); [contradiction|].
+        apply (scalar_interface_ok S t _ Hwf). exact I.
+      + (* string / bytes *)
+        assert (Hnm : kind_of_type t <> K_MESSAGE).
+        { destruct t as [k'|]; [|cbn [wf_fld] in Hwf; discriminate]. cbn [kind_of_type]. intros ->. cbn [wf_fld] in Hwf.
+          apply andb_true_iff in Hwf as [Hwf _]. apply andb_true_iff in Hwf as [Ek Hnum]. apply Z.eqb_eq in Ek. subst k. vm_compute in Hnum. discriminate Hnum. }
+        unfold interface_node, vnode. cbn [an_t an_raw node_type node_raw].
+        destruct (Z.eqb_spec (kind_of_type t) K_MESSAGE); [contradiction|].
+        destruct (Z.eqb_spec (kind_of_type t) T_LIST); [contradiction|].
+        destruct (Z.eqb_spec (kind_of_type t) T_MAP); [contradiction|].
+        apply (scalar_interface_ok S t _ Hwf). exact I.
+      + (* nested message *)
+        destruct t as [|name]; [cbn [wf_fld] in Hwf; discriminate|].
+        destruct (wf_msg_facts _ _ _ Hwf) as [md [Hfm [_ [Hl64 _]]]].
+        unfold interface_node, vnode. cbn [an_t an_raw an_root an_ty node_type node_raw kind_of_type msg_of].
+        change (K_MESSAGE =? K_MESSAGE) with true. cbv iota. rewrite Hfm.
+        cbn [node_raw] in Hlen. rewrite Ee in *. cbn [sval wenc_val] in *.
+        set (body := encode_msg fs) in *. set (lenb := varint_enc (plen body)) in *.
+        pose proof (plen_nonneg body) as Hb0.
+        assert (Hal : aread_length (lenb ++ body) 0 = Some (to_s 64 (plen body), plen lenb)).
+        { unfold aread_length. pose proof (cvar_enc [] (plen body) body (conj Hb0 Hl64)) as Hc. cbn [app] in Hc.
+          change (plen (@nil Z)) with 0 in Hc. fold lenb in Hc. rewrite Hc. reflexivity. }
+        rewrite Hal. apply (iface_msg_loop rec n name md fs lenb Hg Hfm Hwf Hh Hlen).
+    - (* list *)
+      destruct v as [| | |q vs|]; try (cbn [wf_fld] in Hwf; discriminate).
+      destruct Hlo as [Hp Hn].
+      destruct (wf_list_facts _ _ _ _ _ num Hwf) as [Hq [Hne [Hall Hshape]]].
+      cbn [node_raw] in Hlen.
+      assert (Hel : Forall (fun x => rec (enode t x) = IOk (to_gval x)) vs).
+      { apply Forall_forall. intros x Hx. change (enode t x) with (vnode LSingular t 0 x). apply Hg.
+        - cbn [height] in Hh. pose proof (fold_max_le height vs x Hx). lia.
+        - rewrite Forall_forall in Hall. apply Hall. exact Hx.
+        - exact I.
+        - cbn [node_raw]. pose proof (elem_raw_le_list S p t q vs num x Hwf Hx). lia. }
+      unfold interface_node, vnode. cbn [an_t an_raw an_lbl an_ty node_type node_raw].
+      change (T_LIST =? K_MESSAGE) with false. change (T_LIST =? T_LIST) with true. cbv iota.
+      destruct q.
+      + destruct Hshape as [k [xs [Et [Hk [Evs [Hxs [Ew Hpl]]]]]]]. subst t vs. cbn [type_numeric]. rewrite Hk.
+        rewrite Ew in *. set (tg := tagb num 2). set (lenb := varint_enc (plen (penc k xs))).
+        assert (E0 : wenc [(num, WBytes (penc k xs))] = [] ++ tg ++ lenb ++ penc k xs).
+        { unfold wenc. cbn [flat_map]. rewrite app_nil_r, wenc_field_tagb. reflexivity. }
+        set (buf := wenc [(num, WBytes (penc k xs))]) in *.
+        assert (Hc : ctag buf 0 = Some (num, 2, plen tg)).
+        { rewrite E0. change 0 with (plen (@nil Z)). unfold tg. apply ctag_enc; [exact Hn|unfold wt_ok; auto]. }
+        rewrite Hc. change (2 =? 2) with true. cbn [negb]. cbv iota.
+        pose proof (plen_nonneg (penc k xs)) as Hpn.
+        assert (Hal : aread_length buf (plen tg) = Some (to_s 64 (plen (penc k xs)), plen (tg ++ lenb))).
+        { unfold aread_length. replace buf with (tg ++ lenb ++ penc k xs ++ []) by (rewrite E0, app_nil_r; reflexivity).
+          unfold lenb. rewrite cvar_enc by lia. fold lenb. rewrite !plen_app. reflexivity. }
+        rewrite Hal.
+        assert (Eb : buf = (tg ++ lenb) ++ penc k xs) by (rewrite E0, <- app_assoc; reflexivity).
+        assert (Hfu : (length xs <= length buf)%nat).
+        { rewrite Eb, app_length. pose proof (i_penc_len k xs). lia. }
+        destruct (i_fuel_split _ _ Hfu) as [f Ef]. rewrite Ef.
+        rewrite Forall_map in Hel.
+        rewrite Eb. unfold elem_wt. cbn [kind_of_type].
+        rewrite (if_list_packed rec k xs (tg ++ lenb) f [] Hk Hxs Hel). reflexivity.
+      + symmetry in Hq. rewrite <- Hp in Hq. assert (Hnn : type_numeric t = false) by (destruct p; [discriminate Hq|congruence]).
+        rewrite Hnn. rewrite Hshape in *.
+        assert (Hw : wf_wire (map (pair num) (map sval vs)) = true).
+        { destruct (wfld_fvals _ _ _ _ num Hwf) as [E _]. rewrite Hshape in E. rewrite E. apply map_pair_wf; [exact Hn|apply (fvals_wf _ _ _ _ Hwf)]. }
+        destruct vs as [|x0 vs']; [contradiction|].
+        assert (Hx0 : wf_fld S LSingular t x0 = true) by (inversion Hall; assumption).
+        destruct (sval_bytes_i _ _ _ Hx0 Hnn) as [b0 Eb0].
+        set (buf := wenc (map (pair num) (map sval (x0 :: vs')))) in *.
+        assert (Hc : exists tn, ctag buf 0 = Some (num, 2, tn)).
+        { unfold buf. cbn [map]. rewrite Eb0. rewrite wenc_cons.
+          assert (Hf : wf_wfield (num, WBytes b0) = true).
+          { cbn [map] in Hw. rewrite Eb0 in Hw. cbn [wf_wire forallb] in Hw. apply andb_true_iff in Hw as [Hf _]. exact Hf. }
+          destruct (record_skip [] (num, WBytes b0) (wenc (map (pair num) (map sval vs'))) Hf) as [Ht _].
+          cbn [app fst snd wt_of_wval] in Ht. change (plen (@nil Z)) with 0 in Ht. eexists. exact Ht. }
+        destruct Hc as [tn Hc]. rewrite Hc. change (2 =? 2) with true. cbn [negb]. cbv iota.
+        assert (Hfu : (length (x0 :: vs') <= length buf)%nat).
+        { pose proof (i_wenc_len (map (pair num) (map sval (x0 :: vs')))) as H. rewrite !map_length in H. exact H. }
+        destruct (i_fuel_split _ _ Hfu) as [f Ef]. rewrite Ef.
+        pose proof (if_list_unpacked rec S t (x0 :: vs') [] f num [] Hall Hw Hel) as H.
+        cbn [app] in H. change (plen (@nil Z)) with 0 in H. exact H.
+    - (* map *)
+      destruct v as [| | | |kvs]; try (cbn [wf_fld] in Hwf; discriminate).
+      destruct Hlo as [Hkk Hn].
+      destruct (wf_map_facts _ _ _ _ num Hwf) as [Hne [Ew Hall]].
+      cbn [node_raw] in Hlen.
+      assert (Hel : Forall (fun kx => rec (enode t (snd kx)) = IOk (to_gval (snd kx))) kvs).
+      { apply Forall_forall. intros kx Hx. change (enode t (snd kx)) with (vnode LSingular t 0 (snd kx)). apply Hg.
+        - cbn [height] in Hh. pose proof (fold_max_le (fun kx => height (snd kx)) kvs kx Hx). cbn beta in *. lia.
+        - rewrite Forall_forall in Hall. destruct (Hall _ Hx) as [_ [Hv _]]. exact Hv.
+        - exact I.
+        - cbn [node_raw]. pose proof (elem_raw_le_map S kk t kvs num kx Hwf Hx). lia. }
+      assert (Hnd : nodupb mkey_eqb (map fst kvs) = true).
+      { cbn [wf_fld] in Hwf. apply andb_true_iff in Hwf as [Hwf _]. apply andb_true_iff in Hwf as [_ Hnd]. exact Hnd. }
+      assert (Hks : Forall (fun kx => key_okb kk (fst kx) = true) kvs).
+      { eapply Forall_impl; [|exact Hall]. intros kx [Hk _]. exact Hk. }
+      unfold interface_node, vnode. cbn [an_t an_raw an_lbl an_ty node_type node_raw].
+      change (T_MAP =? K_MESSAGE) with false. change (T_MAP =? T_LIST) with false. change (T_MAP =? T_MAP) with true. cbv iota.
+      rewrite Hkk. cbn [negb]. cbv iota.
+      rewrite Ew in *.
+      destruct kvs as [|kx0 kvs']; [contradiction|].
+      set (buf := wenc (map (erec num) (map entry_of (kx0 :: kvs')))) in *.
+      assert (Hc : exists tn, ctag buf 0 = Some (num, 2, tn)).
+      { unfold buf. cbn [map]. rewrite wenc_cons, erec_enc, <- app_assoc.
+        pose proof (ctag_enc [] num 2 (evalb (entry_of kx0) ++ wenc (map (erec num) (map entry_of kvs'))) Hn) as Ht.
+        cbn [app] in Ht. change (plen (@nil Z)) with 0 in Ht. eexists. apply Ht. unfold wt_ok. auto. }
+      destruct Hc as [tn Hc]. rewrite Hc. change (2 =? 2) with true. cbn [negb]. cbv iota.
+      assert (Hfu : (length (kx0 :: kvs') <= length buf)%nat).
+      { pose proof (i_wenc_len (map (erec num) (map entry_of (kx0 :: kvs')))) as H. rewrite !map_length in H. exact H. }
+      destruct (i_fuel_split _ _ Hfu) as [f Ef]. rewrite Ef.
+      pose proof (if_map_run rec S kk t (kx0 :: kvs') [] f num [] [] Hkk Hn Hall Hel) as H.
+      cbn [app] in H. change (plen (@nil Z)) with 0 in H. fold buf in H. rewrite H. f_equal.
+      destruct (Z.eqb_spec kk 9) as [->|Hk9].
+      + apply map_gval_str; assumption.
+      + assert (H9 : (kk =? 9) = false) by (apply Z.eqb_neq; exact Hk9).
+        cbn [orb] in Hkk. apply (map_gval_int kk); assumption.
+  Qed.
+
+  Lemma a_interface_good n : good (a_interface n all_fixes S) n.
+  Proof.
+    induction n as [|n IH].
+    - intros lbl t num v Hh. exfalso. destruct v; cbn [height] in Hh; lia.
+    - change (a_interface (Datatypes.S n) all_fixes S) with (interface_node all_fixes S (a_interface n all_fixes S)).
+      apply node_step. exact IH.
+  Qed.
+End Main.
+
+(* ------------------------------------------------------------------ the theorems *)
+(* Interface() does not look at the element count or the field number stored in the node *)
+Lemma a_interface_size_num fuel S tt raw sz sz' r lbl t num num' :
+  a_interface fuel all_fixes S (mk_anode tt raw sz r lbl t num) = a_interface fuel all_fixes S (mk_anode tt raw sz' r lbl t num').
+Proof. destruct fuel; reflexivity. Qed.
+
+(* every node a lookup / an iteration returns for a well-formed value: fuel = the nesting of nodes below it suffices *)
+Theorem a_interface_value S lbl t num v fuel :
+  schema_okb S = true -> schema_packed_okb S = true ->
+  wf_fld S lbl t v = true -> label_ok lbl t num -> plen (node_raw lbl num v) < 2 ^ 63 ->
+  (height v <= fuel)%nat ->
+  a_interface fuel all_fixes S (vnode lbl t num v) = IOk (to_gval v).
+Proof.
+  intros HS HP Hwf Hlo Hlen Hh. change (2 ^ 63) with 9223372036854775808 in Hlen.
+  apply (a_interface_good S HS HP fuel lbl t num v Hh Hwf Hlo Hlen).
+Qed.
+
+(* the root message *)
+Theorem a_interface_root S root m fuel :
+  schema_okb S = true -> schema_packed_okb S = true ->
+  wf_msg S root m = true -> plen (encode_msg m) < 2 ^ 63 ->
+  (height (VMsg m) <= fuel)%nat ->
+  a_interface fuel all_fixes S (root_node root (encode_msg m)) = IOk (to_gval (VMsg m)).
+Proof.
+  intros HS HP Hwf Hlen Hh. change (2 ^ 63) with 9223372036854775808 in Hlen.
+  destruct fuel as [|f]; [cbn [height] in Hh; lia|].
+  unfold wf_msg in Hwf. destruct (wf_msg_facts _ _ _ Hwf) as [md [Hfm _]].
+  cbn [a_interface]. unfold interface_node, root_node. cbn [an_t an_raw an_root an_ty msg_of].
+  change (K_MESSAGE =? K_MESSAGE) with true. cbv iota. rewrite Hfm.
+  pose proof (iface_msg_loop S HS HP (a_interface f all_fixes S) f root md m [] (a_interface_good S HS HP f) Hfm Hwf Hh) as H.
+  cbn [app] in H. change (plen (@nil Z)) with 0 in H. apply H. exact Hlen.
+Qed.
+
+(* nested message nodes *)
+Theorem a_interface_msg S name fs num fuel :
+  schema_okb S = true -> schema_packed_okb S = true ->
+  wf_fld S LSingular (TMsg name) (VMsg fs) = true -> plen (encode_elem (VMsg fs)) < 2 ^ 63 ->
+  (height (VMsg fs) <= fuel)%nat ->
+  a_interface fuel all_fixes S (mk_anode K_MESSAGE (encode_elem (VMsg fs)) 0 false LSingular (TMsg name) num) = IOk (to_gval (VMsg fs)).
+Proof. intros HS HP Hwf Hlen Hh. apply (a_interface_value S LSingular (TMsg name) num (VMsg fs) fuel HS HP Hwf I Hlen Hh). Qed.
+
+(* LIST nodes, packed or unpacked (the declared packed-ness is the one Interface() assumes: type_numeric of the element type) *)
+Theorem a_interface_list S p t num sz q vs fuel :
+  schema_okb S = true -> schema_packed_okb S = true ->
+  p = type_numeric t -> 1 <= num <= MAX_FIELD_NUMBER ->
+  wf_fld S (LRepeated p) t (VList q vs) = true -> plen (wenc (wfld num (VList q vs))) < 2 ^ 63 ->
+  (height (VList q vs) <= fuel)%nat ->
+  a_interface fuel all_fixes S (mk_anode T_LIST (wenc (wfld num (VList q vs))) sz false (LRepeated p) t num) = IOk (to_gval (VList q vs)).
+Proof.
+  intros HS HP Hp Hn Hwf Hlen Hh. rewrite (a_interface_size_num fuel S T_LIST _ sz 0 false (LRepeated p) t num num).
+  apply (a_interface_value S (LRepeated p) t num (VList q vs) fuel HS HP Hwf (conj Hp Hn) Hlen Hh).
+Qed.
+
+(* MAP nodes, string or integer keys *)
+Theorem a_interface_map S kk t num sz kvs fuel :
+  schema_okb S = true -> schema_packed_okb S = true ->
+  (kk =? 9) || kind_is_int kk = true -> 1 <= num <= MAX_FIELD_NUMBER ->
+  wf_fld S (LMap kk) t (VMap kvs) = true -> plen (wenc (wfld num (VMap kvs))) < 2 ^ 63 ->
+  (height (VMap kvs) <= fuel)%nat ->
+  a_interface fuel all_fixes S (mk_anode T_MAP (wenc (wfld num (VMap kvs))) sz false (LMap kk) t num) = IOk (to_gval (VMap kvs)).
+Proof.
+  intros HS HP Hkk Hn Hwf Hlen Hh. rewrite (a_interface_size_num fuel S T_MAP _ sz 0 false (LMap kk) t num num).
+  apply (a_interface_value S (LMap kk) t num (VMap kvs) fuel HS HP Hwf (conj Hkk Hn) Hlen Hh).
+Qed.
+
+(* scalars / strings / bytes as nodes (fuel 1 suffices) *)
+Theorem a_interface_scalar S t v num fuel :
+  wf_fld S LSingular t v = true -> (match v with VScalar _ _ | VBytes _ _ => True | _ => False end) ->
+  (1 <= fuel)%nat ->
+  a_interface fuel all_fixes S (mk_anode (kind_of_type t) (encode_elem v) 0 false LSingular t num) = IOk (to_gval v).
+Proof.
+  intros Hwf Hv Hf. destruct fuel as [|f]; [lia|].
+  destruct (wf_singular_facts _ _ _ Hwf) as [_ [_ [[Htt1 Htt2] _]]].
+  assert (Hnm : kind_of_type t <> K_MESSAGE).
+  { destruct v as [k x|k b| | |]; try contradiction; (destruct t as [k'|]; [|cbn [wf_fld] in Hwf; discriminate]); cbn [kind_of_type]; intros ->; cbn [wf_fld] in Hwf;
+    apply andb_true_iff in Hwf as [Hwf _]; apply andb_true_iff in Hwf as [Ek Hnum]; apply Z.eqb_eq in Ek; subst k; vm_compute in Hnum; discriminate Hnum. }
+  cbn [a_interface]. unfold interface_node. cbn [an_t an_raw].
+  destruct (Z.eqb_spec (kind_of_type t) K_MESSAGE); [contradiction|].
+  destruct (Z.eqb_spec (kind_of_type t) T_LIST); [contradiction|].
+  destruct (Z.eqb_spec (kind_of_type t) T_MAP); [contradiction|].
+  apply (scalar_interface_ok S t v Hwf Hv).
 Qed.
